@@ -27,6 +27,7 @@ EXTENDS Integers, Sequences, FiniteSets, Json, IOUtils, TLC
 SF == INSTANCE SubFix WITH AsmMode <- 0, FixMode <- 0, Base <- 40000, MaxIns <- 0, MaxDirs <- 0, MaxLines <- 0,
                            Kinds <- {}, TokKinds <- {}, Classes <- <<>>, FlagSets <- {}, TargetOffs <- {},
                            RemOffs <- {}, RemLens <- {}, LabChoices <- {}, Ctls <- {}, FeatureSets <- {}, DirTokKinds <- {}, DirIns <- 0,
+                           IfConds <- {}, MaxIfs <- 0, Rotate <- FALSE,
                            prog <- <<>>, st <- 0, gen <- 0
 
 Cases == JsonDeserialize(IOEnv.CASES)
